@@ -35,7 +35,14 @@ FLOORS = {'quick': {'scenarios': 50, 'valid_boundary_tiles': 3500, 'invalid_addr
                     'wms_outside_requests': 250, 'wms_partially_outside': 200,
                     'svc_tms': 5000, 'svc_tiles': 5000, 'svc_kml': 4500, 'svc_wmts_kvp': 3200, 'svc_wmts_rest': 3100,
                     'svc_wmsc': 4000, 'svc_wms': 1700},
-          'thorough': {}}
+          'thorough': {'scenarios': 850, 'valid_boundary_tiles': 75000, 'invalid_addresses': 340000, 'invalid_levels': 48000,
+                       'invalid_formats': 16000, 'invalid_dimensions': 1900, 'valid_dimension_tiles': 2800,
+                       'limit_requests_above': 11000, 'limit_requests_at_or_below': 7500, 'store_coords_checked': 69000,
+                       'upstream_tile_coords_checked': 22000, 'upstream_getmap_checked': 18000,
+                       'costless_confirmed': 430000, 'cache_dir_snapshot_deep': 43000, 'tile_content_exact': 54000,
+                       'tile_content_lossy': 27000, 'wms_outside_requests': 4300, 'wms_partially_outside': 3300,
+                       'svc_tms': 100000, 'svc_tiles': 100000, 'svc_kml': 89000, 'svc_wmts_kvp': 64000,
+                       'svc_wmts_rest': 64000, 'svc_wmsc': 79000, 'svc_wms': 28000}}
 RULE = ("case = one scenario (2-3 grids drawn from: global mercator / global geodetic profiles, global and local sqrt2 "
         "ladders, local grids whose bbox is not a multiple of the tile span, ll and ul origins, square and non-square "
         "tiles, factor-2 / free-factor / explicit resolution lists; png and jpeg caches on file/sqlite backends, WMS and "
@@ -1238,7 +1245,7 @@ def execute(run, ctx, d, fail):
 
 
 def gen_cases(run):
-    for i in range(run.pick(128, 2880)):
+    for i in range(run.pick(128, 2400)):
         yield {'i': i}
 
 
